@@ -1,0 +1,65 @@
+//go:build verif
+
+// Contracts for govc (/verif): C17 "Asset supply equals the value held in unconsumed outputs" — storage part.
+// Comment-only file. The contracts of readTotalInAsset, writeTotalInAsset and finalizeTransaction (Delta by transaction class, bounds)
+// are in zz_contracts_c15_verif.go (one contract per function); UnspentOutputs (materialisation table) in common/zz_contracts_c17_verif.go.
+//
+// How the pieces make the property (what is machine-checked, what is induction / meta-argument):
+//  (1) MACHINE-CHECKED, writeTotalInAsset / finalizeTransaction: one finalization moves ASSETTOTAL/<asset> by exactly Delta(tx):
+//      +deposit amount | +mint amount | +sum of outputs (genesis) | -sum of the withdrawal-submission outputs | 0 for every other class,
+//      0 <= total' and total' <= capacity whenever it is written; a second finalization of the same transaction changes nothing ([idempotent]).
+//  (2) MACHINE-CHECKED, UnspentOutputs / finalizeTransaction[outputs]: the outputs that become UTXO records are exactly those of the
+//      seven materialised types, each with the amount and index of its output; submit (0xa1) and slash (0xb2) outputs are not materialised.
+//  (3) MACHINE-CHECKED, lemmas SupplyStep*: with (1), (2) and value conservation Sum(In) == Sum(Out) of an accepted transaction (C01),
+//      the change of the sum of unconsumed outputs equals Delta(tx), per class.
+//  (4) NOT machine-checked: the induction over finalized histories (base: empty ledger, total 0, no outputs; step: (3)), the link
+//      "consumed inputs of a finalized transaction are exactly its locked UTXO inputs, each consumed once" (C03), and the split
+//      SumOut == SumMat + SumNonMat of a sum by type (needs induction over the output list; the engine has no induction).
+//  "Never negative" is RELATIVE to the invariant: total.Sub panics when a submission exceeds the recorded total; under the invariant
+//  (total == sum of unconsumed outputs >= the spent inputs >= the submission) it cannot (TotalAdmits, C16).
+
+package storage
+
+//@ spec DbTotalOf(d badger.DB, a crypto.Hash) mathint = badger.dbget(d, ATK(a)) == 0 ? 0 : common.AmountOfVal(badger.dbget(d, ATK(a)))
+
+//@ -- Observation point: ReadAssetWithBalance returns the committed total (own read-only transaction).
+//@ func (s *BadgerStore) ReadAssetWithBalance
+//@   property C17
+//@   requires s != nil && s.snapshotsDB != nil
+//@   modifies nothing
+//@   ensures [balance] err == nil && result0 != nil ==> val(result1) == DbTotalOf(*s.snapshotsDB, id) && val(result1) >= 0
+//@   ensures [unknown-asset] err == nil && result0 == nil ==> val(result1) == 0
+
+//@ -- Step lemmas. U, U2: sum of unconsumed outputs of the asset before / after the finalization; spent: sum of the UTXO inputs the
+//@ -- transaction consumes; mat / nonmat: sum of its materialised / non-materialised outputs; submit: sum of its 0xa1 outputs.
+//@ -- Hypotheses: U2 == U - spent + mat is (2) + C03; the conservation equation is C01's Validate postcondition for the class.
+//@ lemma SupplyStepDeposit(U int, U2 int, deposit int, mat int, nonmat int, delta int)
+//@   property C17
+//@   requires U2 == U + mat && deposit == mat + nonmat && nonmat == 0 -- a deposit has one script output (validateDeposit)
+//@   requires delta == deposit -- writeTotalInAsset[deposit]
+//@   ensures [step] U2 - U == delta
+//@ lemma SupplyStepMint(U int, U2 int, mint int, mat int, nonmat int, delta int)
+//@   property C17
+//@   requires U2 == U + mat && mint == mat + nonmat && nonmat == 0 -- mint outputs are script outputs (validateMint)
+//@   requires delta == mint -- writeTotalInAsset[mint]
+//@   ensures [step] U2 - U == delta
+//@ lemma SupplyStepGenesis(U int, U2 int, sumout int, mat int, nonmat int, delta int)
+//@   property C17
+//@   requires U2 == U + mat && sumout == mat + nonmat && nonmat == 0 -- genesis outputs are script / node accept / custodian outputs
+//@   requires delta == sumout -- writeTotalInAsset[genesis]
+//@   ensures [step] U2 - U == delta
+//@ lemma SupplyStepSubmit(U int, U2 int, spent int, mat int, nonmat int, submit int, delta int)
+//@   property C17
+//@   requires U2 == U - spent + mat && spent == mat + nonmat && nonmat == submit -- no slash output ever validates (validateCustodianSlashNodes always errors)
+//@   requires delta == 0 - submit -- writeTotalInAsset[submit]
+//@   ensures [step] U2 - U == delta
+//@ lemma SupplyStepOther(U int, U2 int, spent int, mat int, nonmat int, delta int)
+//@   property C17
+//@   requires U2 == U - spent + mat && spent == mat + nonmat && nonmat == 0 -- transfers, claims, node and custodian operations: no submit output (OtherShape), no slash output
+//@   requires delta == 0 -- writeTotalInAsset[other]: nothing written
+//@   ensures [step] U2 - U == delta
+//@ -- the bound that makes a withdrawal submission panic-free follows from the invariant (used by TotalAdmits, C16)
+//@ lemma SubmitWithinTotal(total int, U int, spent int, mat int, submit int)
+//@   property C17
+//@   requires total == U && 0 <= spent && spent <= U && 0 <= mat && spent == mat + submit
+//@   ensures [covered] submit <= total
